@@ -129,6 +129,18 @@ CLAIMED["C06"] = (
     "return un-broadcast output shapes for broadcastable inputs).",
     "Lean 4 proof of batching skeletons + metamorphic differential oracle", "DESIGN.md §6 C06")
 
+CLAIMED["C04"] = (
+    "Lean 4 theorems for any ordered scalar type: on a path that masks, a valid solution outside the closed box becomes the fill value "
+    "on every axis and one inside is returned unchanged; masking off / no box -> untouched on both paths; in_image is true exactly for "
+    "finite solutions inside the closed box on EVERY path (also the unmasked analytic one, because in_image re-tests the box), scalar and "
+    "array answers agree elementwise. The property's first clause at full strength (both paths mask) is stated, proved for the variant in "
+    "which the analytic path masks, and REFUTED for the code as it is (known finding D12, witness in Lean and replayed on the real code); "
+    "the proved part for the unchanged tree is named ..._partial (iterative path). Tied to gwcs by applying the Lean masking to the real "
+    "unmasked solutions and comparing bit for bit with the real masked output, on exact affine and celestial WCSs, both paths.",
+    "Trusted: Lean kernel; standard axioms; harness; solver accuracy is C05's subject (values compared to 2e-4 px, masks exactly). "
+    "Known finding D12: a fix exists but breaks an existing test, so it is recorded, not committed.",
+    "Lean 4 proof with variant flag for a known finding + bit-exact differential correspondence", "DESIGN.md §6 C04")
+
 NOT_YET = "check not built yet in this round; will be claimed once its Lean model, theorems and correspondence run green"
 
 
